@@ -17,7 +17,7 @@ ASSUMPTIONS = [
 
 def _pool_multiply(tier):
     base = [(1, 1, 1, 1), (2, 2, 3, 2), (3, 3, 2, 1), (2, 1, 3, 3), (4, 2, 1, 2), (3, 2, 4, 2), (1, 3, 2, 4), (5, 2, 3, 1),
-            (2, 20, 1, 2), (2, 3, 18, 1), (18, 2, 2, 1), (2, 2, 2, 20)]  # sizes beyond 16
+            (2, 20, 1, 2), (2, 3, 18, 1), (18, 2, 2, 1), (2, 2, 2, 20), (2, 2, 1, 4500)]  # sizes beyond 16 / 4096 points
     if tier == "thorough":
         base += [(2, 4, 3, 2), (3, 1, 1, 3), (4, 3, 4, 1), (5, 4, 2, 2), (2, 5, 6, 1), (3, 6, 5, 2), (1, 2, 5, 2), (4, 1, 4, 3),
                  (2, 3, 3, 2), (3, 4, 4, 1), (5, 1, 2, 4), (2, 2, 5, 3)]
